@@ -439,7 +439,7 @@ class Interp:
         elif isinstance(s, ast.For):
             self._exec_for(s, env)
         elif isinstance(s, ast.While):
-            self.eval(s.test, env)
+            self.log("while_test", s, test=self.eval(s.test, env))
             try:
                 self._exec_block(s.body, env)
             except (_Break, _Continue):
@@ -1453,6 +1453,8 @@ def _h_identity(it, args, kwargs, bound, node, qual):
 
 def _h_fn(name, sort=False):
     def h(it, args, kwargs, bound, node, qual):
+        if name == "abs" and len(args) == 1 and isinstance(args[0], Num) and nf.is_const(args[0].nf):
+            return Num(nf.const(abs(nf.cval(args[0].nf))))
         if len(args) == 1 and isinstance(args[0], TupV) and name in ("max", "min", "sum"):
             args = args[0].items
             if name == "sum":
